@@ -19,7 +19,7 @@ func init() {
 			"R06.2 every store to frame.deferred is a prepend of one record and the only consumer ranges forward once, calling element 0 with elements 1..; " +
 			"R06.3 argument values recorded by a defer statement are fixed copies made when the statement executes; " +
 			"R06.4 the unwinding function recovers, then runs the deferred records, then re-panics conditionally, and recover() consumes the caller frame's panic value; " +
-			"R06.5 converting recovers store an interp.Panic carrying the recovered value into the error result. Which faults reflect raises is trusted.",
+			"R06.5 converting recovers store an interp.Panic carrying the recovered value into the error result; R06.7 each deferred record runs under its own recover; R06.8 the generator of recover stores its result on every path. Which faults reflect raises is trusted.",
 		Assumptions: []string{"dynamic calls through fields/slices/interfaces are not followed by the call graph (the execution loop itself is the sink, so run-time closures are covered through it)", "reflect raises ordinary Go panics for run-time faults"},
 		Run:         runC06,
 	})
